@@ -248,6 +248,37 @@ def build_tissue(spec, frame=0):
         ridge_gt[rk] = round(0.5 + gr.random(), 3)
     for v in used_v:
         coords[v] = jpos[v]
+    # lens cells: a small cell squeezed into an internal interface, so that two different interfaces join the
+    # same two triple junctions (P, Q) and the cell has exactly two neighbours
+    lens_arc2 = {}      # ridge -> (index of P in ids, index of Q in ids, ids of the second arc)
+    lens_cells = []     # (key, ridge)
+    if spec.get("lens"):
+        lr = _rng(spec, "lens")
+        cand = [rk for rk in rkeys if len(ridges[rk]) == 2 and len(ridge_pts[rk]) >= 5]
+        lr.shuffle(cand)
+        for rk in cand[:spec["lens"]]:
+            ids = ridge_pts[rk]
+            i, j = 1, len(ids) - 2
+            P_, Q_ = np.array(coords[ids[i]]), np.array(coords[ids[j]])
+            d = Q_ - P_
+            L = float(np.hypot(*d))
+            nvec = np.array([-d[1], d[0]]) / L
+            cB = ridges[rk][1]
+            cenB = np.mean([jpos[v] for v in cellv[cB]], axis=0)
+            sgn = 1.0 if float(np.dot(cenB - (P_ + Q_) / 2, nvec)) >= 0 else -1.0
+            h = 0.22 * L
+            arc2 = []
+            inner = ids[i + 1:j]
+            for m, pid in enumerate(inner):
+                t = (m + 1) / (len(inner) + 1)
+                bump = h * math.sin(math.pi * t)
+                base = np.array(coords[pid])
+                coords[pid] = tuple(base - sgn * bump * nvec)          # first arc: towards the first cell
+                coords[nxt] = tuple(base + sgn * bump * nvec)          # second arc: towards the second cell
+                arc2.append(nxt)
+                nxt += 1
+            lens_arc2[rk] = (i, j, arc2)
+            lens_cells.append((f"L{len(lens_cells)}", rk))
     # rounding + uniqueness
     rc = {v: (round(p[0], 3), round(p[1], 3)) for v, p in coords.items()}
     if len(set(rc.values())) != len(rc):
@@ -279,7 +310,7 @@ def build_tissue(spec, frame=0):
 
     vkeys = sorted(rc)
     vmap = idmap(vkeys, idmode, ir)
-    cmap = idmap(keep, idmode, ir)
+    cmap = idmap(list(keep) + [k for k, _ in lens_cells], idmode, ir)
 
     verts = {vmap[v]: rc[v] for v in vkeys}
     orient = spec.get("orient", "ccw")
@@ -297,6 +328,9 @@ def build_tissue(spec, frame=0):
         for a, b in zip(cyc, cyc[1:] + cyc[:1]):
             rk = (min(a, b), max(a, b))
             ids = ridge_pts[rk]
+            if rk in lens_arc2 and c == ridges[rk][1]:
+                i_, j_, arc2_ = lens_arc2[rk]
+                ids = ids[:i_ + 1] + arc2_ + ids[j_:]      # the second cell runs along the second arc
             out.append(a)
             out.extend(ids if a == rk[0] else ids[::-1])
         flip = (orient == "cw") or (orient == "mixed" and orr.random() < 0.5)
@@ -308,12 +342,25 @@ def build_tissue(spec, frame=0):
             out = out[k:] + out[:k]
         cells[cmap[c]] = [vmap[v] for v in out]
         pressure[cmap[c]] = round(prr.random() * 0.1, 4)
+    for key, rk in lens_cells:
+        i_, j_, arc2_ = lens_arc2[rk]
+        ids = ridge_pts[rk]
+        cyc_l = ids[i_:j_ + 1] + arc2_[::-1]
+        if (orient == "cw") or (orient == "mixed" and orr.random() < 0.5):
+            cyc_l = cyc_l[::-1]
+        cells[cmap[key]] = [vmap[v] for v in cyc_l]
+        pressure[cmap[key]] = round(prr.random() * 0.1, 4)
     # edges: one per adjacent pair, ridge order
     eid_order = []
     for rk in rkeys:
         chain = [rk[0]] + ridge_pts[rk] + [rk[1]]
         for a, b in zip(chain, chain[1:]):
             eid_order.append((a, b, rk))
+        if rk in lens_arc2:
+            i_, j_, arc2_ = lens_arc2[rk]
+            chain2 = [ridge_pts[rk][i_]] + arc2_ + [ridge_pts[rk][j_]]
+            for a, b in zip(chain2, chain2[1:]):
+                eid_order.append((a, b, rk))
     emap = idmap(range(len(eid_order)), idmode if idmode != "contig0" else "contig1", ir)
     er = _rng(spec, "edir")
     for i, (a, b, rk) in enumerate(eid_order):
@@ -421,6 +468,12 @@ def random_spec(rng, *, max_side=6, kmax=40, for_solver=False, frames=1, min_rid
             spec["scale"] = rng.choice([10.0, 24.0, 40.0])
         if rng.random() < 0.3:
             spec["store_order"] = "shuffle"
+        if rng.random() < 0.12 and spec["pts"].get("mode") != "list":
+            spec["lens"] = rng.choice([1, 1, 2])
+            if spec["pts"]["mode"] == "const":
+                spec["pts"] = {"mode": "const", "k": max(5, spec["pts"]["k"])}
+            else:
+                spec["pts"] = {"mode": "mixed", "kmin": max(5, spec["pts"].get("kmin", 0)), "kmax": max(7, spec["pts"]["kmax"])}
         spec["orient"] = rng.choice(["ccw", "cw", "mixed"])
         spec["ids"] = rng.choice(["contig0", "contig1", "gaps", "shuffle", "gaps", "huge"])
         if frames > 1:
